@@ -93,7 +93,7 @@ def written_case(rng, k):
         es = [[entry() for _ in range(c)] for _ in range(r)]
         return ufl.as_matrix([[e[0] for e in row] for row in es]), [[e[1] for e in row] for row in es]
     Xf = tuple(float(v) for v in X)
-    kind = ["det", "inv", "cofac", "perm", "perm3", "transpose-chain", "matmul"][k % 7]
+    kind = ["det", "inv", "cofac", "perm", "perm3", "transpose-chain", "matmul", "mixedgrad"][k % 8]
     out = []
     if kind == "det":
         n = rng.choice([2, 3, 4, 4, 5])
@@ -117,6 +117,28 @@ def written_case(rng, k):
         else:
             out.append((ufl.cofac(A)[r, c], I[c][r] * d))       # cofac(A) = det(A) inv(A)^T
         desc = "%s of a %dx%d matrix, component (%d,%d)" % (kind, n, n, r, c)
+    elif kind == "mixedgrad":
+        # derivatives of a coefficient on an element whose largest complete sub-space is P0 (subdegree 0) but which is not
+        # cellwise constant (superdegree 2): mixed P2 x DG0 / an enriched element; the mapping is a callable with exact derivatives
+        import derivcommon as dc
+        from utils import MixedElement, FiniteElement
+        from ufl.sobolevspace import L2, H1
+        P2 = LagrangeElement(cell, 2)
+        DG0 = FiniteElement("DG", cell, 0, (), ufl.identity_pullback, L2)
+        if rng.random() < 0.6:
+            el, shape = MixedElement([P2, DG0]), (2,)
+        else:
+            el, shape = FiniteElement("P0+bubble", cell, 2, (), ufl.identity_pullback, H1, subdegree=0), ()
+        fc = ufl.Coefficient(ufl.FunctionSpace(mesh, el))
+        fld = dc.Field(rng, shape, g)
+        j = rng.randrange(g)
+        comp0 = (0,) if shape else ()
+        e1 = (fc[0] if shape else fc).dx(j)
+        e2 = ufl.grad(fc)[comp0 + (j,)] * x[0] + (fc[0] if shape else fc)
+        want1 = fld.comp(comp0, Xf, (j,))
+        want2 = fld.comp(comp0, Xf, (j,)) * Xf[0] + fld.comp(comp0, Xf, ())
+        desc = "derivative of a coefficient on an element with subdegree 0 and superdegree 2"
+        return desc, Xf, [(e1, want1), (e2, want2)], {fc: fld}
     elif kind == "perm":
         # a component tensor indexed with a permutation of its OWN defining indices
         n, m = rng.choice([2, 3]), rng.choice([2, 3])
@@ -160,7 +182,7 @@ def written_case(rng, k):
         out.append((ufl.dot(A, B)[r, c], sum(Av[r][q] * Bv[q][c] for q in range(m))))
         out.append((ufl.inner(A, A), sum(v * v for row in Av for v in row)))
         desc = "dot / inner of matrices"
-    return desc, Xf, out
+    return desc, Xf, out, None
 
 
 class C24(Prop):
@@ -247,12 +269,12 @@ class C24(Prop):
                 case = None
             if case is None:
                 continue
-            desc, Xf, items = case
+            desc, Xf, items, mapping = case
             for e, want in items:
                 with warnings.catch_warnings():
                     warnings.simplefilter("ignore")
                     try:
-                        got = e(Xf)
+                        got = e(Xf, mapping) if mapping else e(Xf)
                     except Exception as ex:  # noqa
                         self.bad.append(("evaluation of %s raises %s" % (desc, type(ex).__name__), dict(seed=ctx.seed, k=k, expr=desc, kind="written-raise", written=True)))
                         continue
@@ -287,10 +309,10 @@ class C24(Prop):
                 except Exception:  # noqa
                     case = None
             if case:
-                desc, Xf, items = case
+                desc, Xf, items, mapping = case
                 for e, want in items:
                     try:
-                        got = e(Xf)
+                        got = e(Xf, mapping) if mapping else e(Xf)
                     except Exception as ex:  # noqa
                         return Witness("evaluation of %s raises %s" % (desc, type(ex).__name__), data.get("key", "C24"), d)
                     if abs(float(got) - float(want)) > 1e-9 * max(1.0, abs(float(want))):
